@@ -112,6 +112,17 @@ def gpfCorrect (eps : α) (inv : Mat α n n → Mat α n n) (gc : GStep α n k)
                 gpfWeight eps (pred.gm.weight i) (l.2 i) (t i)
                   (gpfDensity inv (x i) (g.mean i) (g.cov i)) } }
 
+/-- `correctStep(b, b)` — the same object as input and output (fix 5d39dcb: the code copies the
+    predicted set first and corrects from the copy).  The model has value semantics, so this branch is
+    the ordinary step whose output object initially holds the predicted set; every theorem about
+    `gpfCorrect` applies with `out := pred`. -/
+def gpfCorrectInPlace (eps : α) (inv : Mat α n n → Mat α n n) (gc : GStep α n k)
+    (sq : Fin k → Mat α n n) (z : Fin k → Vec α n)
+    (lik : (Fin k → Vec α n) → Bool × Vec α k)
+    (trans : (Fin k → Vec α n) → (Fin k → Vec α n) → Vec α k)
+    (pred : PSet α n k) : PSet α n k :=
+  gpfCorrect eps inv gc sq z lik trans pred pred
+
 /-- `WhiteNoiseAcceleration::getTransitionProbability`:
     `multivariate_gaussian_density(cur − F prev, 0, Q)`, one value per particle. -/
 def gpfGaussTrans (inv : Mat α n n → Mat α n n) (F Q : Mat α n n)
